@@ -253,8 +253,12 @@ def run(ctx):
 
 
 def replay(ctx, data):
-    exe, log, _ = vlib.build_harness("bzone", HARNESS["bzone"])
     r = data["replay"]
+    if "solids" in str(r.get("harness", "")) or "bzone" not in str(r.get("harness", "bzone")):
+        from checks import c09b
+        if hasattr(c09b, "replay"):
+            return c09b.replay(ctx, data)
+    exe, log, _ = vlib.build_harness("bzone", HARNESS["bzone"])
     if "op" in r:
         _, o = vlib.run_lines([exe], [r["op"]])
         print("op:", r["op"])
